@@ -6,7 +6,8 @@ Open Scope R_scope.
 
 Definition ROOps : OOps R :=
   {| o0 := 0; ohalf := / 2; oadd := Rplus; osub := Rminus; omul := Rmult; odiv := Rdiv;
-     oopp := Ropp; osqrt := sqrt; oabs := Rabs; oltb := Rltb |}.
+     oopp := Ropp; osqrt := sqrt; oabs := Rabs; oltb := Rltb;
+     osuml := fun l => fold_left Rplus l 0 |}.
 
 Notation omaxR := (omax ROOps).
 Notation ominR := (omin ROOps).
@@ -124,7 +125,7 @@ Proof.
 Qed.
 
 Lemma osum_cons a (l : list R) : osum ROOps (a :: l) = a + osum ROOps l.
-Proof. unfold osum. cbn [fold_left oadd o0 ROOps]. rewrite osum_shift. lra. Qed.
+Proof. unfold osum. cbn [osuml ROOps fold_left]. rewrite osum_shift. lra. Qed.
 
 Lemma osum_le (a b : list R) : length a = length b -> (forall j, (j < length a)%nat -> nth j a 0 <= nth j b 0) ->
   osum ROOps a <= osum ROOps b.
@@ -392,10 +393,10 @@ Proof.
     split; [symmetry; exact Hv | left; reflexivity]. }
   pose proof (oc_loop_invariant pr obs (match maxvol with Some v => v | None => osum ROOps vals0 end) bfuel vars vals0 cum Hcat Hm Hobs
                 (maxit pr) 0%nat vals0 vars 0 None G) as [I1 [I2 [I3 [[L I4] I5]]]].
-  cbn [o0 ROOps]. split; [exact I1|]. split.
+  change (o0 ROOps) with 0. split; [exact I1|]. split.
   - unfold all_designs in *. apply Forall_app. split; [|constructor; [exact I2 | constructor]].
     apply Forall_map. eapply Forall_impl; [|exact I1]. intros d [H _]. exact H.
-  - split; [exact I5|]. split; [exact I3|]. rewrite I4, Hv. reflexivity.
+  - split; [exact I5|]. split; [exact I3|]. Set Printing All. Show. rewrite I4, Hv. reflexivity.
 Qed.
 
 (* ------------------------------------------------------------------ fixed point for  f = sum c_i / x_i *)
